@@ -40,6 +40,7 @@ class Agg:
         self.capped = 0
         self.mut_ops = 0
         self.extra = collections.Counter()
+        self.rid = set()
         self.samples = []
         self.harness = []
         self.log = hashlib.sha256()
@@ -65,6 +66,7 @@ class Agg:
             self.interleavings.add(st["interleaving"])
         for c in st.get("cells", ()):
             self.cells.add(c)
+        self.rid.update(st.get("raised_in_dispatch", ()))
         if st.get("nontrivial"):
             self.nontrivial.add(st.get("interleaving") or st.get("case_digest") or f"{res['key'][0]}:{res['key'][1]}")
         if st.get("policy"):
@@ -293,6 +295,8 @@ def write_evidence(prop, args, agg, total_wall, search_wall, cut, nviol, known_l
             "injected_float_operator_fault": {"fired": agg.faults_fired.get("flt", 0)},
             "natural_exceptions_by_type": dict(agg.natural),
         },
+        "dispatch_overrides_with_a_raising_path_inside": len(agg.rid),
+        "dispatch_overrides_total": _n_dispatch(),
         "mid_call_observations": agg.observed,
         "quiescent_point_checks": agg.quiescent,
         "state_changing_ops": agg.mut_ops,
@@ -326,6 +330,12 @@ def write_evidence(prop, args, agg, total_wall, search_wall, cut, nviol, known_l
     path = os.path.join(EVIDENCE, f"{prop}.json")
     with open(path, "w") as fh:
         json.dump(ev, fh, indent=1, default=str)
+
+
+def _n_dispatch():
+    from . import sites
+
+    return sum(1 for rel, a, b in sites.get()["dispatch_with"] if rel.startswith("_compute"))
 
 
 def replay(args):
